@@ -548,7 +548,13 @@ def rule_R5(text, log):
     def drop(m):
         log.append({'rule': 'R5', 'before': m.group(0).strip(), 'after': ''})
         return m.group(1) if m.lastindex else ''
-    text = re.sub(r'#\[derive\([^\]]*\)\]([ \t]*\n?)', drop, text)
+    def derive(m):
+        # keep only Copy + Clone (needed when extracted code copies the value); the rest is dropped
+        items = [x.strip() for x in m.group(1).split(',')]
+        keep = 'Copy' in items and 'Clone' in items
+        log.append({'rule': 'R5', 'before': m.group(0).strip(), 'after': '#[derive(Clone, Copy)]' if keep else ''})
+        return ('#[derive(Clone, Copy)]' if keep else '') + m.group(2)
+    text = re.sub(r'#\[derive\(([^\]]*)\)\]([ \t]*\n?)', derive, text)
     text = re.sub(r'#\[allow\([^\]]*\)\]([ \t]*\n?)', drop, text)
     text = re.sub(r'#\[repr\(u8\)\]([ \t]*\n?)', drop, text)
     text = re.sub(r'#\[cfg_attr\(feature = "unbounded", allow\(dead_code\)\)\]([ \t]*\n?)', drop, text)
@@ -567,7 +573,7 @@ def rule_R5(text, log):
     return text
 
 
-RULES = {'R12': rule_R12, 'R11b': rule_R11b, 'R9': rule_R9, 'R10': rule_R10, 'R11': rule_R11, 'R1': rule_R1, 'R1f': rule_R1f, 'R3f': rule_R3f, 'R8': rule_R8, 'R2': rule_R2, 'R2b': rule_R2b, 'R7': rule_R7, 'R3': rule_R3, 'R4': rule_R4, 'R5': rule_R5}
+RULES = {'R5c': (lambda text, log: text), 'R12': rule_R12, 'R11b': rule_R11b, 'R9': rule_R9, 'R10': rule_R10, 'R11': rule_R11, 'R1': rule_R1, 'R1f': rule_R1f, 'R3f': rule_R3f, 'R8': rule_R8, 'R2': rule_R2, 'R2b': rule_R2b, 'R7': rule_R7, 'R3': rule_R3, 'R4': rule_R4, 'R5': rule_R5}
 
 
 def strip_doc_comments(text):
@@ -878,7 +884,8 @@ def extract_unit(spec_path, repo, out_path, meta_path=None, canary=None):
             hdr = src.text[src.tok(i_kw)[2]:src.tok(i_open)[3]]
             if item.get('as_inherent'):
                 # R6: methods of a trait impl are extracted as inherent methods (trait dispatch dropped)
-                new_hdr = 'impl %s {' % ty
+                after_for = hdr.split(' for ', 1)[1] if ' for ' in hdr else ty + ' {'
+                new_hdr = 'impl ' + after_for.strip()
                 log.append({'rule': 'R6', 'before': hdr.strip(), 'after': new_hdr, 'file': rel,
                             'line': src.line_of(src.tok(i_kw)[2])})
                 hdr = new_hdr
